@@ -112,12 +112,20 @@ func newWorld(online, kick bool) *world {
 func (w *world) kickMode() bool { return w.online && w.kick }
 
 func (w *world) add(name string, id int) int {
-	i, _ := w.addP(name, id)
+	i, _ := w.addP(name, id, w.online)
 	return i
 }
 
-func (w *world) addP(name string, id int) (int, *proxy.C11Player) {
-	pl := proxy.C11NewPlayer(w.px, newStub(), name, uid(id), w.online)
+// addO declares a connection whose own OnlineMode() is given (PreLoginEvent can force online or offline
+// mode for a single login, whatever the proxy's mode) and records the `new` line.
+func (w *world) addO(run *hx.Run, class, name string, id int, online bool) int {
+	i, _ := w.addP(name, id, online)
+	run.Case(class+":setup", fmt.Sprintf("new %d %s %d %s", i, name, id, b01(online)), "-")
+	return i
+}
+
+func (w *world) addP(name string, id int, online bool) (int, *proxy.C11Player) {
+	pl := proxy.C11NewPlayer(w.px, newStub(), name, uid(id), online)
 	w.mu.Lock()
 	defer w.mu.Unlock()
 	i := len(w.players)
@@ -279,14 +287,24 @@ type seqOp struct{ op, arg string }
 type decl struct {
 	name string
 	id   int
+	mode int // the connection's own OnlineMode(): 0 = the proxy's mode, 1 = forced online, 2 = forced offline
+}
+
+func (d decl) online(proxyOnline bool) bool {
+	switch d.mode {
+	case 1:
+		return true
+	case 2:
+		return false
+	}
+	return proxyOnline
 }
 
 func runSeq(run *hx.Run, class string, online, kick bool, decls []decl, ops []seqOp) {
 	w := newWorld(online, kick)
 	run.Case(class+":setup", fmt.Sprintf("reset %s %s", b01(online), b01(kick)), "-")
 	for _, d := range decls {
-		i := w.add(d.name, d.id)
-		run.Case(class+":setup", fmt.Sprintf("new %d %s %d", i, d.name, d.id), "-")
+		w.addO(run, class, d.name, d.id, d.online(online))
 	}
 	for _, o := range ops {
 		if o.op == "reg" {
@@ -317,14 +335,13 @@ func randomSeq(run *hx.Run, r *hx.Rng, nOps int) {
 	base := r.Intn(len(namePool))
 	var decls []decl
 	for i := 0; i < np; i++ {
-		decls = append(decls, decl{namePool[(base+r.Intn(nNames+2))%len(namePool)], 1 + r.Intn(nIDs)})
+		decls = append(decls, decl{namePool[(base+r.Intn(nNames+2))%len(namePool)], 1 + r.Intn(nIDs), r.Intn(4) % 3})
 	}
 	w := newWorld(online, kick)
 	class := fmt.Sprintf("rand:o%sk%s", b01(online), b01(kick))
 	run.Case(class+":setup", fmt.Sprintf("reset %s %s", b01(online), b01(kick)), "-")
 	for _, d := range decls {
-		i := w.add(d.name, d.id)
-		run.Case(class+":setup", fmt.Sprintf("new %d %s %d", i, d.name, d.id), "-")
+		w.addO(run, class, d.name, d.id, d.online(online))
 	}
 	freshID := 0
 	do := func(op, arg string) string {
@@ -395,17 +412,15 @@ func randomSeq(run *hx.Run, r *hx.Rng, nOps int) {
 					name = strings.ToUpper(name)
 				}
 				freshID++
-				j := w.add(name, 1000+freshID)
+				j := w.addO(run, class, name, 1000+freshID, r.Chance(1, 3) != online)
 				np++
-				run.Case(class+":setup", fmt.Sprintf("new %d %s %d", j, name, 1000+freshID), "-")
 				do("racekick", fmt.Sprintf("%d %d", i, j))
 			}
 		}
 		if k%9 == 8 && r.Bool() { // a fresh connection joins the pool
-			d := decl{namePool[(base+r.Intn(nNames+2))%len(namePool)], 1 + r.Intn(nIDs)}
-			j := w.add(d.name, d.id)
+			d := decl{namePool[(base+r.Intn(nNames+2))%len(namePool)], 1 + r.Intn(nIDs), r.Intn(4) % 3}
+			w.addO(run, class, d.name, d.id, d.online(online))
 			np++
-			run.Case(class+":setup", fmt.Sprintf("new %d %s %d", j, d.name, d.id), "-")
 		}
 	}
 }
@@ -436,7 +451,7 @@ func stress(run *hx.Run, r *hx.Rng, online, kick bool, workers, flows int) {
 					if rr.Bool() {
 						name = namePool[4+rr.Intn(6)]
 					}
-					i, pl := w.addP(name, 1+rr.Intn(4))
+					i, pl := w.addP(name, 1+rr.Intn(4), rr.Chance(1, 3) != w.online)
 					rc := rec{i: i}
 					if proxy.C11CanRegister(w.px, pl) {
 						if proxy.C11Register(w.px, pl) {
@@ -508,45 +523,54 @@ func main() {
 
 	// ---- fixed regression cases first: the witnesses of the three defects found in the unchanged tree ----
 	// (1) unregisterConnection deleted by key: a rejected duplicate login's teardown removed the original
-	runSeq(run, "fixed:unreg-name", false, false, []decl{{"Bob", 1}, {"bob", 2}, {"BOB", 3}}, []seqOp{
+	runSeq(run, "fixed:unreg-name", false, false, []decl{{"Bob", 1, 0}, {"bob", 2, 0}, {"BOB", 3, 0}}, []seqOp{
 		{"canreg", "0"}, {"reg", "0"}, {"canreg", "1"}, {"disc", "1"}, {"byname", "BOB"}, {"byid", "1"}, {"count", ""},
 		{"canreg", "2"}, {"reg", "2"}, {"list", ""}, {"disc", "0"}, {"byname", "bob"}, {"list", ""}})
-	runSeq(run, "fixed:unreg-id", false, false, []decl{{"Bob", 1}, {"Robert", 1}}, []seqOp{
+	runSeq(run, "fixed:unreg-id", false, false, []decl{{"Bob", 1, 0}, {"Robert", 1, 0}}, []seqOp{
 		{"reg", "0"}, {"canreg", "1"}, {"disc", "1"}, {"byid", "1"}, {"byname", "bob"}, {"count", ""}, {"disc", "0"}, {"count", ""}})
 	// (2) registerConnection returned false without Unlock: the next registry call never returned
-	runSeq(run, "fixed:lock-leak", false, false, []decl{{"Bob", 1}, {"bob", 2}, {"zed", 1}}, []seqOp{
+	runSeq(run, "fixed:lock-leak", false, false, []decl{{"Bob", 1, 0}, {"bob", 2, 0}, {"zed", 1, 0}}, []seqOp{
 		{"reg", "0"}, {"reg", "1"}, {"count", ""}, {"reg", "2"}, {"list", ""}, {"disc", "1"}, {"disc", "2"}, {"list", ""}})
 	// (3) offline mode with the kick flag: canRegister said yes to both, registerConnection used the kick branch
-	runSeq(run, "fixed:kick-mismatch", false, true, []decl{{"Bob", 1}, {"bob", 2}, {"Zed", 1}}, []seqOp{
+	runSeq(run, "fixed:kick-mismatch", false, true, []decl{{"Bob", 1, 0}, {"bob", 2, 0}, {"Zed", 1, 0}}, []seqOp{
 		{"canreg", "0"}, {"canreg", "1"}, {"reg", "0"}, {"reg", "1"}, {"list", ""}, {"byname", "BOB"},
 		{"canreg", "2"}, {"reg", "2"}, {"list", ""}, {"disc", "0"}, {"byname", "bob"}, {"list", ""}})
+	// kick mode is a property of the proxy's configuration, never of one login: on an offline proxy with the kick
+	// flag a login whose online mode was forced (PreLoginEvent) is admitted by the same name+UUID rule as any other
+	runSeq(run, "fixed:forced-online", false, true, []decl{{"steve", 1, 0}, {"Steve", 2, 1}, {"STEVE", 3, 1}, {"alex", 1, 1}}, []seqOp{
+		{"canreg", "0"}, {"reg", "0"}, {"canreg", "1"}, {"reg", "1"}, {"list", ""}, {"byname", "steve"},
+		{"disc", "1"}, {"byname", "STEVE"}, {"canreg", "3"}, {"reg", "3"}, {"byid", "1"}, {"reg", "2"}, {"list", ""},
+		{"disc", "0"}, {"reg", "2"}, {"byname", "steve"}, {"list", ""}})
+	runSeq(run, "fixed:forced-offline", true, true, []decl{{"steve", 1, 2}, {"Steve", 2, 2}, {"steve", 1, 0}}, []seqOp{
+		{"canreg", "0"}, {"reg", "0"}, {"canreg", "1"}, {"reg", "1"}, {"list", ""}, {"canreg", "2"}, {"reg", "2"},
+		{"list", ""}, {"byname", "STEVE"}})
 	// kick mode proper: the older session with the same UUID is disconnected (status conflicting) first
-	runSeq(run, "fixed:kick", true, true, []decl{{"Bob", 1}, {"Bob", 1}, {"bob", 2}, {"Bob", 1}}, []seqOp{
+	runSeq(run, "fixed:kick", true, true, []decl{{"Bob", 1, 0}, {"Bob", 1, 0}, {"bob", 2, 0}, {"Bob", 1, 0}}, []seqOp{
 		{"canreg", "0"}, {"reg", "0"}, {"canreg", "1"}, {"reg", "1"}, {"list", ""}, {"byname", "bob"},
 		{"reg", "2"}, {"byname", "BOB"}, {"disc", "2"}, {"byname", "bob"}, {"byid", "1"}, {"reg", "3"}, {"list", ""},
 		{"disc", "3"}, {"disc", "3"}, {"list", ""}})
 	// kick mode, same lower-case name, different UUIDs: the older connection goes away while the newer one
 	// registers — whatever the interleaving, the newer player must end up findable by name
-	runSeq(run, "fixed:racekick", true, true, []decl{{"bob", 1}, {"Bob", 2}, {"BOB", 3}, {"carl", 4}, {"bOb", 5}}, []seqOp{
+	runSeq(run, "fixed:racekick", true, true, []decl{{"bob", 1, 0}, {"Bob", 2, 0}, {"BOB", 3, 0}, {"carl", 4, 0}, {"bOb", 5, 0}}, []seqOp{
 		{"reg", "0"}, {"racekick", "0 1"}, {"byname", "bob"}, {"byid", "2"}, {"list", ""},
 		{"racekick", "1 2"}, {"byname", "BoB"}, {"reg", "3"}, {"racekick", "3 4"}, {"byname", "bob"}, {"byname", "carl"},
 		{"disc", "4"}, {"disc", "2"}, {"list", ""}})
 	// every mode: duplicate by name only, by id only, by both, case variants
 	for _, m := range [][2]bool{{false, false}, {false, true}, {true, false}, {true, true}} {
-		runSeq(run, "fixed:modes", m[0], m[1], []decl{{"Ann", 1}, {"ann", 2}, {"Ben", 1}, {"ANN", 1}, {"Cy", 3}}, []seqOp{
+		runSeq(run, "fixed:modes", m[0], m[1], []decl{{"Ann", 1, 0}, {"ann", 2, 0}, {"Ben", 1, 0}, {"ANN", 1, 0}, {"Cy", 3, 0}}, []seqOp{
 			{"canreg", "0"}, {"reg", "0"}, {"canreg", "1"}, {"reg", "1"}, {"canreg", "2"}, {"reg", "2"}, {"canreg", "3"}, {"reg", "3"},
 			{"list", ""}, {"disc", "1"}, {"list", ""}, {"disc", "2"}, {"list", ""}, {"disc", "3"}, {"list", ""},
 			{"byname", "aNN"}, {"byid", "1"}, {"reg", "4"}, {"disc", "0"}, {"list", ""}, {"byname", "cy"}, {"disc", "4"}, {"count", ""}})
 	}
 
 	// ---- random sequences ----
-	nSeq := run.Scale(250, 2500)
+	nSeq := run.Scale(250, 1800)
 	for s := 0; s < nSeq && hangs < 4; s++ {
 		randomSeq(run, r, 20+r.Intn(40))
 	}
 
 	// ---- concurrent stress: search aid ----
-	rounds := run.Scale(2, 12)
+	rounds := run.Scale(2, 8)
 	for k := 0; k < rounds && hangs < 4; k++ {
 		for _, m := range [][2]bool{{false, false}, {false, true}, {true, true}} {
 			stress(run, r, m[0], m[1], 8, run.Scale(150, 600))
